@@ -439,7 +439,7 @@ class NAND(TypeReaderCryptoBase):
 
         self.ctr_index = None
         for idx, info in self.header.partition_table.items():
-            if info.base_file.startswith('ctr'):
+            if info.base_file and info.base_file.startswith('ctr'):
                 self.ctr_index = idx
                 logger.info('Found CTR partition at index %i', idx)
                 break
